@@ -11,9 +11,10 @@ S=${SEEDRUN:-/tmp/seedrun}
 mkdir -p $S/root
 rsync -a --delete --exclude target --exclude .git /repo/ $S/repo/
 ( cd $S/repo && patch -p1 -s < /verif/seeded/$N/patch.diff ) || { echo "== $N: patch does not apply"; exit 2; }
-rsync -a --delete --exclude target --exclude build.log /verif/harness/ $S/harness/
+# the harness as COMMITTED (work in progress in /verif does not leak in)
+rm -rf $S/harness && git -C /verif archive HEAD harness | tar -x -C $S
 sed -i "s#path = \"/repo\"#path = \"$S/repo\"#" $S/harness/Cargo.toml
-rsync -a --delete /verif/corpus $S/root/ ; cp /verif/known_findings.json /verif/properties.jsonl $S/root/
+rm -rf $S/root/corpus $S/root/replays; git -C /verif archive HEAD corpus known_findings.json properties.jsonl | tar -x -C $S/root
 cd $S/harness
 if ! CARGO_NET_OFFLINE=true CARGO_TARGET_DIR=$S/target cargo build --release --offline > $S/build.log 2>&1; then echo "== $N: build failed"; tail -5 $S/build.log; exit 2; fi
 cd $S/root
